@@ -10,7 +10,7 @@ Recognised shapes:
           if <or/and combination of `s in live_in | live_out | <local>`>: basic_scope_vars.append(s)
           [continue]
       return frozenset(basic_scope_vars)
-  _get_block_vars: input_only = <set expression over basic_scope_vars, live_in, live_out with & | ->
+  _get_block_vars: input_only = <set expression over basic_scope_vars, live_in, live_out, fn_scope.globals/nonlocals with & | ->
                    scope_vars = sorted(scope_vars, key=lambda v: (v in input_only, v))
                    nouts = len(scope_vars) - len(input_only)
 """
@@ -110,6 +110,9 @@ def translate(repo):
 
     g = fns['_get_block_vars']
     input_only = sort_ok = nouts_ok = None
+    # fn_scope must be the function's scope, bound once
+    fn_scope_ok = [ast.unparse(st.value) for st in ast.walk(g) if isinstance(st, ast.Assign) and len(st.targets) == 1
+                   and ast.unparse(st.targets[0]) == 'fn_scope'] == ['self.state[_Function].scope']
 
     def sexpr(e):
         if isinstance(e, ast.BinOp):
@@ -119,6 +122,8 @@ def translate(repo):
             return '(%s %s %s)' % (op, sexpr(e.left), sexpr(e.right))
         if isinstance(e, ast.Name) and e.id in ('basic_scope_vars', 'live_in', 'live_out'):
             return {'basic_scope_vars': 'SBasic', 'live_in': 'SLiveIn', 'live_out': 'SLiveOut'}[e.id]
+        if ast.unparse(e) in ('fn_scope.nonlocals', 'fn_scope.globals') and fn_scope_ok:
+            return '(SFn [%s])' % ('FnNonlocals' if ast.unparse(e).endswith('nonlocals') else 'FnGlobals')
         _fail(e, 'set expression ' + ast.unparse(e))
     for st in ast.walk(g):
         if isinstance(st, ast.Assign) and len(st.targets) == 1 and isinstance(st.targets[0], ast.Name):
